@@ -287,6 +287,9 @@ func (cli *Client) EnrollContext(c net.Conn, ctx any) (Conn, error) {
 		return nil, err
 	}
 	<-connOpened
+	if ccb.err != nil {
+		return nil, ccb.err
+	}
 
 	return gc, nil
 }
